@@ -114,18 +114,31 @@ fn ext_method(ty: &str, m: &str) -> Option<(&'static str, ExtKind, LTy)> {
     })
 }
 
-/// vocabulary: free functions
-fn ext_free(f: &str) -> Option<(&'static str, LTy)> {
+/// vocabulary: free functions (Lean function, result type, may panic: the Lean function returns an `Option`)
+fn ext_free(f: &str) -> Option<(&'static str, LTy, bool)> {
     Some(match f {
-        "constant_time_eq" => ("Rs.L.bytesEq", LTy::Bool),
+        "constant_time_eq" => ("Rs.L.bytesEq", LTy::Bool, false),
+        // aes.rs: `Box::new(AesCtrZipKeyStream::<AesNNN>::new(key)) as Box<dyn AesCipher>` by mode
+        "cipher_from_mode" => ("Rs.AesFromMode.cipher_from_mode", LTy::Ext("Rs.AesDyn.Cipher".into()), true),
         _ => return None,
     })
+}
+
+/// vocabulary: free functions whose last argument is a `&mut [u8]` they fill: (path, turbofish, Lean function
+/// of the other arguments and the old buffer, giving the new buffer)
+fn ext_fill(path: &[String], turbofish: &str) -> Option<&'static str> {
+    match (path.iter().map(|s| s.as_str()).collect::<Vec<_>>().as_slice(), turbofish) {
+        (["pbkdf2", "pbkdf2"], "Hmac < Sha1 >") => Some("Rs.pbkdf2"),
+        _ => None,
+    }
 }
 
 /// vocabulary: associated functions of external types
 fn ext_static(ty: &str, f: &str) -> Option<(&'static str, LTy)> {
     Some(match (ty, f) {
         ("Hasher", "new") => ("Rs.Crc32Hasher.new", LTy::Ext("Rs.Crc32Hasher".into())),
+        // `Hmac::<Sha1>::new_from_slice(key)`: `Result<Self, InvalidLength>` as an `Option`
+        ("Hmac", "new_from_slice") => ("Rs.Hmac.new_from_slice", LTy::Opt(Box::new(LTy::Ext("Rs.Hmac".into())))),
         _ => return None,
     })
 }
